@@ -163,7 +163,7 @@ func (db *MultiBucketBackend) getBucketWithFilePrefixLocked(bucket string, prefi
 		}
 
 		if entry.IsDir() {
-			response.AddPrefix(path.Join(prefixPath, prefixPart, entry.Name()) + "/")
+			response.AddPrefix(objectPath + "/")
 
 		} else {
 			size := entry.Size()
